@@ -6,7 +6,7 @@ from . import seqcommon as QC
 
 def run(tier):
     chk = F.Check("C12", tier)
-    trs = QC.sources(chk, tier, ["seq."], ["InvBudget", "InvOpenedHaveAllChildrenEvaluated", "InvOpenOrder", "InvStruct"], ["StepExhausted", "StepOpenBest"])
+    trs = QC.sources(chk, tier, ["seq.", "rec."], ["InvBudget", "InvOpenedHaveAllChildrenEvaluated", "InvOpenOrder", "InvStruct"], ["StepExhausted", "StepOpenBest"])
     chk.sample({"cfg": trs[0]["cfg"], "hmax": trs[0]["P"]["hmax"], "events": trs[0]["ev"][1:5]})
     chk.assumptions = ["hmax = floor(n/H_n) from exact rational H_n (harness); rewards on a grid, ties and negatives included"]
     return chk.finish(
